@@ -7,7 +7,7 @@ use crate::thin_arc::ThinArc;
 use crate::unique_arc::UniqueArc;
 use crate::vrt;
 use crate::vrt::{any_count, base, cnt, cw, data, mk, rd, set_cnt, Tr, Tr16, Tr64, Tr8, TrIter, Zd, S1, S16a16, S2a2, S33a32, S4a4,
-                 S64a64, S9a8, Z};
+                 S64a64, S9a8, S3, Z};
 use alloc::boxed::Box;
 use alloc::string::String;
 use alloc::vec::Vec;
@@ -61,6 +61,14 @@ h_alloc_hs!(c05_alloc_hs__a64_s3, S64a64, vrt::S3);
 h_alloc_hs!(c05_alloc_hs__s3_a32, vrt::S3, S33a32);
 // @h props=C05 tier=thorough fuc=Arc::allocate_for_header_and_slice note="zero-sized element"
 h_alloc_hs!(c05_alloc_hs__u32_zst, u32, Z);
+
+/// zero-sized header that still carries an alignment requirement
+#[repr(align(32))]
+pub(crate) struct Za32;
+// @h props=C05 fuc=Arc::allocate_for_header_and_slice,Arc::allocate_for_layout note="zero-sized but over-aligned header: its alignment still shapes the block"
+h_alloc_hs!(c05_alloc_hs__zst_a32_u8, Za32, u8);
+// @h props=C05 tier=thorough fuc=Arc::allocate_for_header_and_slice note="zero-length array header with a 16-byte alignment"
+h_alloc_hs!(c05_alloc_hs__u128x0_u16, [u128; 0], u16);
 
 // @h props=C05 kind=panic site="unwrap|LayoutError|capacity overflow| in .*allocate_for_header_and_slice" fuc=Arc::allocate_for_header_and_slice note="size overflow refused BEFORE allocating (any alloc() is a failed check)"
 gpanic! { fn c05_alloc_hs_overflow_refused__u16_u32() {
@@ -156,6 +164,22 @@ gproof! { fn c06_from_header_and_slice__u32() {
     assert!(vrt::drops() == 0 && vrt::clones() == 0 && vrt::ga(1) && vrt::gd(0));
     drop(a);
     assert!(vrt::drops() == 1 && vrt::gd(1));
+} }
+
+// @h props=C06,C10 fuc=Arc::from_header_and_slice,ThinArc::from_header_and_slice note="element types whose size is a multiple (3x) of their alignment: every byte of every element arrives, fat and thin"
+gproof! { fn c06_from_header_and_slice__size_above_align() {
+    let buf: [[u16; 3]; 3] = kani::any();
+    let len: usize = kani::any();
+    kani::assume(len <= 3);
+    let h: u8 = kani::any();
+    let a = Arc::from_header_and_slice(h, &buf[..len]);
+    let t = crate::ThinArc::from_header_and_slice(h, &buf[..len]);
+    assert!(a.slice.len() == len && a.header == h && t.slice.len() == len && t.header.header == h);
+    let i: usize = kani::any();
+    kani::assume(i < 3);
+    if i < len { assert!(a.slice[i] == buf[i] && t.slice[i] == buf[i]); }
+    core::mem::forget(a);
+    core::mem::forget(t);
 } }
 
 // @h props=C06 fuc=Arc::from_header_and_slice note="over-aligned element type, padding after a byte header"
@@ -364,6 +388,19 @@ gproof! { #[kani::unwind(6)] fn c06_arc_from_iter_inexact() {
     assert!(vrt::drops() == 0 && vrt::clones() == 0 && vrt::glive(1));
     drop(a);
     assert!(vrt::drops() == len && vrt::glive(0));
+} }
+
+// @h props=C06 bounded=len==9 fuc=Arc::from_iter,UniqueArc::from_iter,Arc::from(Vec) note="inexact hint, 9 elements: beyond the Vec growth steps 4 and 8 (two reallocations on the way) and beyond any small-sequence boundary up to 8"
+gproof! { #[kani::unwind(12)] fn c06_arc_from_iter_inexact_len9() {
+    let first = unsafe { vrt::NEXT_ID };
+    let a: Arc<[Tr]> = Arc::from_iter(Inexact { left: 9, unknown: kani::any() });
+    assert!(a.len() == 9 && cnt(&a) == 1);
+    let i: usize = kani::any();
+    kani::assume(i < 9);
+    assert!(a[i].id == first + i as u8);
+    assert!(vrt::drops() == 0 && vrt::clones() == 0 && vrt::glive(1));
+    drop(a);
+    assert!(vrt::drops() == 9 && vrt::glive(0));
 } }
 
 // @h props=C06 fuc=Arc::default,Arc::from(T)
